@@ -5,7 +5,7 @@ import FluentModel.Cache
 payload = `<mode>:<k>:<needs>/<endNeed>;op;op;…`
 * `mode` = `a` (async: `Bundles::format_*` futures over `AsyncCache`) or `s` (sync: `format_*_sync` over `Cache`)
 * `k` = number of consumers (tasks `0 … k-1`), `needs` = `,`-separated `need` of item 0, 1, … (`-` = no items)
-* ops: `start:<c>:<depth>:<api>` (api ∈ v|s|m|n is only the shape of the Rust call), `poll:<c>`, `fire`
+* ops: `start:<c>:<depth>:<api>` (api ∈ v|s|m|n is only the shape of the Rust call), `poll:<c>`, `fire`, `pf` (prefetch)
 
 observation per piece: `hdr` | `s` | `busy` | `idle` | `P#<polls>.<pulls>!<wakes>` |
 `R<item>/<got>#…!…` | `RN/<got>#…!…` | `f#…!…`; `got` and `wakes` are `.`-separated (`-` = empty);
@@ -80,6 +80,11 @@ def run (payload : String) : String :=
     | none => "bad-case"
     | some (sync, k, s0) =>
       let (_, outs) := ops.foldl (fun (acc : S × List String) op =>
+        -- `pf`: `Bundles::prefetch_sync` / `prefetch_async` driven to completion (the source's hook is ready at once)
+        if op == "pf" then
+          let s' := prefetch acc.1
+          (s', ("pf" ++ counts s' ++ newWakes acc.1 s') :: acc.2)
+        else
         match parseOp k op with
         | none => (acc.1, "bad-op" :: acc.2)
         | some o => let (s', t) := stepObs sync acc.1 o; (s', t :: acc.2)) (s0, ["hdr"])
